@@ -198,6 +198,17 @@ struct TokFtorT
         return TokT{ sv.data(), sv.size() };
     }
 };
+// a term functor whose result type is std::string_view itself (an unquoting / trimming functor has this shape): it is
+// NOT the identity for the library's purposes - it is observed (logged) like every other term functor (S93)
+struct SvFtor
+{
+    int term;
+    std::string_view operator()(std::string_view sv) const
+    {
+        simrt::termf(term, sv.data(), int64_t(sv.size()));
+        return sv;
+    }
+};
 struct Node; struct MNode; struct XNode; struct PNode; struct INode;
 template<typename V> struct TokOf { using type = Tok; };
 template<> struct TokOf<Node> { using type = LTok; };
